@@ -197,6 +197,8 @@ def run(ctx, drv):
             tot = sum(w)
             q = [(x / tot) + (rng.choice([0.0, 0.0, 0.2]) if rng.random() < 0.3 else 0.0) for x in w]
             pts.append([(-x if d else x) for x, d in zip(q, dirs)])
+            if rng.random() < 0.25:
+                pts.append(list(pts[-1]))          # another solution object with the same objective vector, in the same batch
         sols = [mk_sol(p, q, 0.0) for q in pts]
         ref = C.AdaptiveGridArchive(capacity, n, divisions)
         for s_ in sols:
